@@ -210,3 +210,17 @@ impl ApLang<ExecutedWithDebug> {
         Ok(())
     }
 }
+
+#[cfg(feature = "verif")]
+impl ApLang<Lexed> {
+    pub fn verif_tokens(&self) -> &Vec<Token> {
+        self.tokens.as_ref().unwrap()
+    }
+}
+
+#[cfg(feature = "verif")]
+impl ApLang<Parsed> {
+    pub fn verif_ast(&self) -> &Ast {
+        self.ast.as_ref().unwrap()
+    }
+}
